@@ -13,14 +13,11 @@ import (
 // `bclmc instrument [memory] [tokbuf=N]` writes the overlay for the controlled-scheduler build.
 func init() {
 	fw.Commands["instrument"] = func(args []string) int {
-		opt := instr.Options{RepoDir: "/repo", OutDir: filepath.Join(fw.WorkDir(), "overlay"), Memory: true, Knobs: []string{"tokensBufSize"}}
+		opt := instr.Options{RepoDir: fw.RepoDir(), OutDir: filepath.Join(fw.WorkDir(), "overlay"), Memory: true, Knobs: []string{"tokensBufSize"}}
 		for _, a := range args {
 			if a == "nomemory" {
 				opt.Memory = false
 			}
-		}
-		if d := os.Getenv("VERIF_REPO"); d != "" {
-			opt.RepoDir = d
 		}
 		os.RemoveAll(opt.OutDir)
 		path, st, err := instr.Rewrite(opt)
